@@ -311,13 +311,20 @@ def registry_vs_ctx(prog, rep):
 
     owns = {}
     for r in sorted({r for _, _, r in parts if r}):
-        owns[r] = own_set(prog, rep, r)
+        try:
+            owns[r] = own_set(prog, rep, r)
+        except ip.AnalysisError as e:
+            b_ = prog.body(r)
+            rep.analysis_error("own-set", r.rsplit("::", 1)[1], e, b_.where() if b_ is not None else "")
+            owns[r] = None
     n_ok = 0
     for cp, kind in sorted(ctx.items()):
         r = rule_of(cp)
         if r is None:
             rep.ob("registry", "U+%04X (%s) has a registered rule" % (cp, kind), False, "no rule: the standard classes would report MissingContextRule for this code point", key="registry|missing|U+%04X" % cp)
             continue
+        if r in owns and owns[r] is None:
+            continue  # (own set not extracted: reported once, above, as an analysis error)
         o = owns.get(r) or []
         inside = any(lo <= cp <= hi for lo, hi in o)
         n_ok += 1 if inside else 0
